@@ -134,6 +134,87 @@ theorem C13_success_is_undone_by_release (pol : Policy) (t : Tid) (W : World) (S
   rw [avail_quiescent pol e hq]
   exact List.all_eq_true.1 hfree p ((shapeFp_perm W m S hl).mem_iff.1 hp)
 
+/-! ### the API layer above the raw try: `try_lock` / `try_read` … `unlock(guard)` -/
+
+theorem solo_mark {ε α : Type} (pol : Policy) (t : Tid) (k : Nat) (c : Resp → Prog ε α) (e : Env) :
+    solo pol t (.op (.mark k) c) e = solo pol t (c .ok) e := by
+  simp [solo, Env.step]
+
+theorem solo_readPoison (pol : Policy) (t : Tid) (e : Env) : ∀ (ps : List PoisonId) (b : Bool),
+    solo pol t (readPoison ps b) e = .done (b || ps.any e.poison) e
+  | [], b => by simp [readPoison, solo]
+  | p :: ps, b => by
+    simp only [readPoison, solo, Env.step]
+    rw [solo_readPoison pol t e ps]
+    have h1 : (Resp.no == Resp.ok) = false := by decide
+    have h2 : (Resp.ok == Resp.ok) = true := by decide
+    cases h : e.poison p <;> simp [h, h1, h2, Bool.or_assoc]
+
+/-- dropping a guard, fault-free and not unwinding: every leaf is released, in declared order -/
+theorem solo_guardDrop (pol : Policy) (t : Tid) (m : Mode) : ∀ (items : List GuardItem) (e : Env),
+    solo pol t (guardDrop m items false) e = .done false (relAll t (itemsFp m items) e)
+  | [], e => by simp [guardDrop, solo, itemsFp]
+  | .poisonRef p :: gs, e => by
+    simp only [guardDrop, Bool.false_eq_true, if_false, itemsFp]
+    exact solo_guardDrop pol t m gs e
+  | .leaf x isMutex :: gs, e => by
+    simp only [guardDrop, solo, Env.step, Bool.false_eq_true, if_false, itemsFp, relAll_cons]
+    exact solo_guardDrop pol t m gs _
+
+/-- releasing a permutation of what was taken restores the table -/
+theorem relAll_takeAll_perm (pol : Policy) (t : Tid) (fp fp' : Fp) (e : Env) (hp : fp'.Perm fp)
+    (hn : (Fp.ids fp).Nodup) (hw : NotWaiting t e) (ha : ∀ p ∈ fp, avail pol e p = true) :
+    relAll t fp' (takeAll t fp e) = e := by
+  have hpi : (Fp.ids fp').Perm (Fp.ids fp) := hp.map (fun (p : LockId × Mode) => p.1)
+  have hn' : (Fp.ids fp').Nodup := hpi.nodup_iff.2 hn
+  have h1 := relAll_takeAll (pol := pol) (t := t) fp e hn hw ha
+  have h2 : relAll t fp' (takeAll t fp e) = relAll t fp (takeAll t fp e) := by
+    apply Env.ext'
+    · funext x
+      by_cases hx : x ∈ Fp.ids fp
+      · obtain ⟨p, hpm, rfl⟩ := List.mem_map.1 hx
+        rw [relAll_locks_in _ _ _ hn' (hp.mem_iff.2 hpm), relAll_locks_in _ _ _ hn hpm]
+      · have hx' : x ∉ Fp.ids fp' := fun h => hx (hpi.mem_iff.1 h)
+        rw [relAll_locks_notin _ _ _ hx', relAll_locks_notin _ _ _ hx]
+    · simp
+    · simp
+  rw [h2, h1]
+
+-- @theorem C13_try_lock_then_unlock_api_is_exact : at the API level (ThreadKey check, raw try, poison read, guard construction, LockGuard::unlock): with no concurrent activity, try_lock/try_read of any lockable shape with distinct leaves returns WouldBlock — table, flags and key count exactly as before — if some declared leaf is busy, and otherwise returns a guard (Ok or Err(poisoned) according to the flags) whose unlock hands the key back and leaves the whole table EXACTLY as it was before the call
+theorem C13_try_lock_then_unlock_api_is_exact (pol : Policy) (t : Tid) (C : Ctx) (c : Nat) (m : Mode)
+    (u : UserSt) (e : Env) (hl : lockable (C.shape c) = true) (hnd : (declLeaves (C.shape c)).Nodup)
+    (hq : Quiescent e) :
+    solo pol t (guardSession C (C.shape c)
+        { coll := c, api := .tryLock, mode := m, key := .owned, body := [], exit := .unlock } u) e =
+      if (holdsOf (C.shape c) m).all (freeFor e) then
+        .done (if (poisonIds (C.shape c)).any e.poison then mkOutPoisoned else mkOutOk,
+               { u with keys := u.keys - 1 + 1 }) e
+      else .done (mkOutWouldBlock, u) e := by
+  have htry := C13_try_is_exact pol t C.W (C.shape c) m e hl hnd hq
+  by_cases hfree : (holdsOf (C.shape c) m).all (freeFor e) = true
+  · rw [hfree] at htry
+    simp only [if_true] at htry
+    simp only [hfree, if_true]
+    have hrestore : relAll t (itemsFp m (guardItems (C.shape c))) (takeAll t (shapeFp C.W (C.shape c) m) e) = e := by
+      rw [itemsFp_guardItems]
+      apply relAll_takeAll_perm pol t _ _ e (shapeFp_perm C.W m (C.shape c) hl).symm
+        (shapeFp_ids_nodup C.W (C.shape c) m hl hnd) (quiescent_notWaiting t e hq)
+      intro p hp
+      rw [avail_quiescent pol e hq]
+      exact List.all_eq_true.1 hfree p ((shapeFp_perm C.W m (C.shape c) hl).mem_iff.1 hp)
+    have hpois : (poisonIds (C.shape c)).any (takeAll t (shapeFp C.W (C.shape c) m) e).poison =
+        (poisonIds (C.shape c)).any e.poison := by simp
+    -- the guard phase: read the flags, end of the call, empty body, unlock(guard)
+    simp only [guardSession, solo_mark, solo_bindX, htry, if_true, guardPhase, Prog.bind, solo_readPoison,
+      Bool.false_or, bodySteps, solo, solo_guardDrop, Bool.false_eq_true, if_false, hrestore, hpois]
+  · have hf : (holdsOf (C.shape c) m).all (freeFor e) = false := by
+      cases h : (holdsOf (C.shape c) m).all (freeFor e)
+      · rfl
+      · exact absurd h hfree
+    rw [hf] at htry
+    simp only [Bool.false_eq_true, if_false] at htry
+    simp [guardSession, solo_mark, solo_bindX, htry, hf, solo]
+
 /-- non-vacuity: a concrete table where one of three leaves is read-held by another thread
 meets the hypotheses; by the theorem `try_read` of a boxed-in-retry nest succeeds and
 `try_lock` fails -/
